@@ -395,6 +395,38 @@ theorem C07_fresh_callback_at_most_once (E : Env) (hR : E.R.KeepsPot) (u : Nat) 
   have := C07_at_most_once E hR u c ops hd hbe
   omega
 
+/-! ### history level: conservation, hence exactly once
+
+With a typed queue (an invariant of every reachable state), fresh datagram numbers at each build
+(as in C05) and no `disconnect`, the inequality of `C07_at_most_once` is an equality: holders plus
+invocations are conserved.  So a callback given to one accepted send is invoked exactly once as
+soon as the connection no longer holds it - and it stops holding it only by invoking it. -/
+
+/-- **Conservation.** `holders after + invocations = holders before + accepted sends given u`. -/
+theorem C07_conservation (E : Env) (hR : E.R.KeepsPot) (hT : E.R.KeepsTyped) (u : Nat) (c : Conn) (ops : List Op)
+    (hd : Direct0 u c) (ht : Typed c) (hf : FreshRun E c ops) (hbe : NoBestEffort u ops) (hnd : NoDisc ops) :
+    pot u (run E c ops).1 + firedO u (run E c ops).2 = pot u c + introsA u E c ops :=
+  pot_run_eq u E hR hT c ops hd ht hf hbe hnd
+
+/-- **Exactly once.** A callback the connection did not hold, given to exactly one accepted
+unretried or guaranteed send (single datagram or fragmented): once the connection holds it no
+longer (every datagram that carried it was acknowledged or timed out; for a guaranteed send: was
+acknowledged), it has been invoked exactly once - never zero times, never twice. -/
+theorem C07_exactly_once (E : Env) (hR : E.R.KeepsPot) (hT : E.R.KeepsTyped) (u : Nat) (c : Conn) (ops : List Op)
+    (hd : Direct0 u c) (ht : Typed c) (hf : FreshRun E c ops) (hbe : NoBestEffort u ops) (hnd : NoDisc ops)
+    (h0 : pot u c = 0) (h1 : introsA u E c ops = 1) (hend : pot u (run E c ops).1 = 0) :
+    firedO u (run E c ops).2 = 1 := by
+  have := C07_conservation E hR hT u c ops hd ht hf hbe hnd
+  omega
+
+/-- ... and as long as it has not been invoked, the connection still holds it -/
+theorem C07_held_until_invoked (E : Env) (hR : E.R.KeepsPot) (hT : E.R.KeepsTyped) (u : Nat) (c : Conn) (ops : List Op)
+    (hd : Direct0 u c) (ht : Typed c) (hf : FreshRun E c ops) (hbe : NoBestEffort u ops) (hnd : NoDisc ops)
+    (h0 : pot u c = 0) (h1 : introsA u E c ops = 1) (hnot : firedO u (run E c ops).2 = 0) :
+    pot u (run E c ops).1 = 1 := by
+  have := C07_conservation E hR hT u c ops hd ht hf hbe hnd
+  omega
+
 /-- the hypothesis on the handshake handlers holds for the base class and both subclasses -/
 theorem C07_roles_hold_no_user_callbacks (H : Hs) (tok : Nat) (tt : Option Nat) :
     baseRole.KeepsPot ∧ (clientRole H).KeepsPot ∧ (serverRole H tok tt).KeepsPot :=
@@ -414,5 +446,19 @@ example :
     · intro m h; simp [c] at h
   refine ⟨hd, rfl, ?_, rfl, by decide +kernel⟩
   simp [ops, NoBestEffort]
+
+/-- non-vacuity of the conservation theorems: the same history satisfies the additional hypotheses
+(typed queue, fresh datagram numbers, no disconnect, one accepted send), ends holding nothing,
+and the callback was invoked exactly once -/
+example :
+    let E : Env := ⟨⟨1500⟩, Mpgs.Toy.crypto, baseRole⟩
+    let c : Conn := { isServer := false, status := .connected, key := some [1] }
+    let ops : List Op := [.send [1, 2] 0 (some 7), .build 100, .tmo 5000, .tmo 9000]
+    Typed c ∧ FreshRun E c ops ∧ NoDisc ops ∧ introsA 7 E c ops = 1 ∧ pot 7 (run E c ops).1 = 0 := by
+  intro E c ops
+  refine ⟨typed_fresh c rfl rfl rfl, ?_, by simp [ops, NoDisc], by decide +kernel, by decide +kernel⟩
+  simp only [ops, FreshRun]
+  refine ⟨fun t h => Op.noConfusion h, fun t _ => ?_, fun t h => Op.noConfusion h, fun t h => Op.noConfusion h, trivial⟩
+  unfold FreshSeq; decide +kernel
 
 end Mpgs.Conn
